@@ -56,13 +56,42 @@ def instances(tier, seed):
             systems.append("nl")
         for sk in systems:
             out.append(dict(name="order/%s/%s" % (ig, sk), args=["order", ig, sk], paths=1, base_points=(2 if not thorough else 4),
-                            max_terms=60000, z3_timeout_ms=15000, pc_max_terms=(12 if sk == "nl" else None)))
+                            max_terms=60000, z3_timeout_ms=15000, pc_max_terms=12))
         d = min(p, 3)
         isys = ["quad%d" % d] + (["mbsF"] if p >= 2 else [])
         for sk in isys:
             out.append(dict(name="interp/%s/%s" % (ig, sk), args=["interp", ig, sk], paths=1, base_points=(1 if not thorough else 3),
-                            max_terms=20000, z3_timeout_ms=15000))
+                            max_terms=20000, z3_timeout_ms=15000, pc_max_terms=12))
+    # (iii) step-size controller: the real adjustStepSize on symbolic data, one scenario (= seed region) per instance
+    acc, hc = 0.0625, 0.125
+    cases = {"zero": 0.0, "tiny": acc / 10000, "grow": acc / 16, "hyst": acc / 2, "keep": acc / 1.25, "edge": acc, "bad": 2 * acc, "worse": 1.125 * acc, "awful": 1e6 * acc}
+    flagsets = ["", "min", "max", "min+max", "lim", "min+lim", "o2", "o3+max"]
+    for fl in flagsets:
+        for cn, ev in cases.items():
+            if not thorough and (fl in ("min+lim", "o2", "o3+max", "max") or (fl == "lim" and cn in ("edge", "worse", "keep"))):
+                continue
+            sd = dict(err=ev, acc=acc, hcur=hc, hmin=hc * (1.0 if cn in ("bad", "awful") and "lim" not in fl else 0.75), hmax=hc * (1.5 if cn != "keep" else 1.0))
+            out.append(dict(name="adjust/%s/%s" % (fl or "plain", cn), args=["adjust", "RungeKuttaMerson", fl], paths=(2 if not thorough else 12), base_points=1,
+                            flips_per_path=(2 if not thorough else 8), seedcase=sd, z3_timeout_ms=15000))
+        for sp in ("inf", "nan"):
+            if not thorough and fl not in ("", "min+max"):
+                continue
+            out.append(dict(name="adjust/%s/%s" % (fl or "plain", sp), args=["adjust", "RungeKuttaMerson", (fl + "+" + sp).strip("+")], paths=1, base_points=1,
+                            seedcase=dict(acc=acc, hcur=hc, hmin=hc * 0.75, hmax=hc * 1.5), z3_timeout_ms=15000))
+    # the controller as wired into the real stepTo (error control active), every adjustStepSize call recorded
+    for ig in ("RungeKuttaMerson", "RungeKutta3", "ExplicitEuler", "RungeKutta2"):
+        for cn, sd in (("small", dict(h=0.125, lam=-0.75)), ("large", dict(h=2.0, lam=-2.0))):
+            if not thorough and cn == "large" and ig in ("RungeKutta2",):
+                continue
+            out.append(dict(name="ctrl/%s/lin/%s" % (ig, cn), args=["ctrl", ig, "lin"], paths=1, base_points=1, seedcase=sd, max_terms=20000, z3_timeout_ms=15000,
+                            pc_max_terms=60))
     return out
+
+
+def adjust_seeds(inst, seeds, angle_pins, rng, g):
+    for k, v in inst.get("seedcase", {}).items():
+        if k in seeds:
+            seeds[k] = v
 
 
 def _inp(enc, n):
@@ -86,6 +115,16 @@ def free_sets(inst, tr, tier, rng):
 def input_domain(enc, inst):
     cs = []
     names = enc.t.input_by_name
+    for n in ("hcur", "hmin", "hmax"):
+        if n in names:
+            cs.append(Constraint(2, _inp(enc, n), n + ">0"))
+    if "hmin" in names and "hmax" in names:
+        cs.append(Constraint(5, P.sub(_inp(enc, "hmin"), _inp(enc, "hmax")), "hmin<=hmax"))
+    if "acc" in names:
+        cs.append(Constraint(2, _inp(enc, "acc"), "acc>0"))
+        cs.append(Constraint(4, P.sub(_inp(enc, "acc"), P.const(1)), "acc<1"))
+    if "err" in names:
+        cs.append(Constraint(3, _inp(enc, "err"), "err>=0"))
     if "h" in names:
         h = _inp(enc, "h")
         cs.append(Constraint(2, P.sub(h, P.const(Fraction(1, 1024))), "h>1/1024"))
@@ -193,6 +232,10 @@ def obligations(enc, inst, tr):
         return ob_order(enc, inst, tr)
     if mode == "interp":
         return ob_interp(enc, inst, tr)
+    if mode == "adjust":
+        return ob_adjust(enc, inst, tr)
+    if mode == "ctrl":
+        return ob_ctrl(enc, inst, tr)
     raise EncodeError("unknown mode")
 
 
@@ -268,4 +311,109 @@ def ob_interp(enc, inst, tr):
             tw = [Constraint(1, P.sub(enc.out("yr_%d" % i), P.add(er[i], r)), "[twin: exact + r]")]
     obs.append(Ob("interpolated report state equals the exact solution at the report time (as accurate as the step states)",
                   [Constraint(1, P.sub(enc.out("yr_%d" % i), er[i]), "yr[%d]" % i) for i in range(ny)], twin=tw))
+    return obs
+
+
+# ------------------------------------------------------------------ (iii) step-size controller
+def pow_axioms(enc):
+    """u = pow(x, 1/n) (uninterpreted in the encoding): u > 0, x < 1 => u < 1, x >= 1 => u >= 1; returns (raw smt assertions, hypotheses)"""
+    R = enc.ring
+    smt, hyps = [], []
+    for nid, nd in enc.t.nodes.items():      # the pow nodes may occur in the path condition only: encode them now
+        if nd[0] == "pow":
+            enc.poly(nid)
+    for vi, (fname, args) in getattr(enc, "uf_info", {}).items():
+        if not fname.startswith("pow["):
+            continue
+        e = Fraction(fname[4:-1])
+        if not (0 < e <= 1):
+            raise EncodeError("unexpected pow exponent " + fname)
+        x = args[0]
+        u = R.names[vi]
+        xs = R.smt(P.sub(x, P.const(1)))
+        smt += ["(> %s 0.0)" % u, "(=> (< %s 0.0) (< %s 1.0))" % (xs, u), "(=> (>= %s 0.0) (>= %s 1.0))" % (xs, u)]
+        for v in R.vars_of(x):
+            hyps += list(enc.defs.get(v, []))
+    return smt, hyps
+
+
+def controller_clauses(enc, tag, hb, ha, err, acc, hmin, hmax, limited, success, order):
+    """the documented contract of adjustStepSize for one call; err is None for a non-finite error norm"""
+    ax, axh = pow_axioms(enc)
+    obs = []
+    five, tenth = P.sub(ha, P.scale(hb, 5)), P.sub(ha, P.scale(hb, Fraction(1, 10)))
+    obs.append(Ob("%s: the step grows by at most the factor 5 and shrinks by at most the factor 10" % tag,
+                  [Constraint(5, five, "new<=5 old"), Constraint(3, tenth, "new>=old/10")],
+                  twin=[Constraint(5, P.sub(ha, P.scale(hb, Fraction(1, 20))), "[twin: new <= old/20]")]))
+    if hmin is not None:
+        obs.append(Ob("%s: user minimum step size respected" % tag, [Constraint(3, P.sub(ha, hmin), "new>=hmin")]))
+    if hmax is not None:
+        obs.append(Ob("%s: user maximum step size respected" % tag, [Constraint(5, P.sub(ha, hmax), "new<=hmax")]))
+    if limited:
+        obs.append(Ob("%s: no growth when the step was artificially limited" % tag, [Constraint(5, P.sub(ha, hb), "new<=old")]))
+    if success:
+        obs.append(Ob("%s: returned true => new step >= old step" % tag, [Constraint(3, P.sub(ha, hb), "new>=old")]))
+        # accepted although the estimated error exceeds the accuracy: only possible at the user's minimum step size
+        goal = [Constraint(1, P.sub(hb, hmin), "old=hmin")] if hmin is not None else []
+        if err is not None:
+            goal.append(Constraint(5, P.sub(err, acc), "err<=acc"))
+        if not goal:
+            goal = [Constraint(1, P.const(1), "a step with non-finite error was accepted")]
+        obs.append(Ob("%s: accepted => error norm <= accuracy, or the step is at the user's minimum" % tag, goal, hyps=axh, any=True, extra_smt=ax))
+    else:
+        obs.append(Ob("%s: returned false => new step < old step" % tag, [Constraint(4, P.sub(ha, hb), "new<old")]))
+        if err is not None:
+            obs.append(Ob("%s: rejected => error norm > accuracy (a step that achieved the accuracy is never rejected)" % tag,
+                          [Constraint(2, P.sub(err, acc), "err>acc")]))
+    return obs
+
+
+def _finite_out(enc, tr, name):
+    o = tr.outputs[name]
+    if o[0] == "c" and not (abs(o[1]) < float("inf")):
+        return None
+    return enc.out(name)
+
+
+def ob_adjust(enc, inst, tr):
+    if tr.note("exception"):
+        return [Ob("no exception", [Constraint(1, P.const(1), "exception: " + tr.note("exception")[:80])])]
+    fl = inst["args"][2].split("+")
+    hb, ha, acc = enc.out("h_before"), enc.out("h_after"), enc.out("acc")
+    hmin = enc.out("hmin") if "min" in fl else None
+    hmax = enc.out("hmax") if "max" in fl else None
+    err = _finite_out(enc, tr, "err")
+    obs = []
+    goal = [Constraint(1, P.sub(hb, enc.out("h_init")), "current = initial")]
+    if hmin is not None:
+        goal.append(Constraint(3, P.sub(hb, hmin), "init>=hmin"))
+    if hmax is not None:
+        goal.append(Constraint(5, P.sub(hb, hmax), "init<=hmax"))
+    if hmin is None and hmax is None:
+        goal.append(Constraint(1, P.sub(hb, enc.out("hcur")), "init = requested"))
+    obs.append(Ob("initial step size = the requested one clamped to the user's [min, max]", goal))
+    obs += controller_clauses(enc, "adjustStepSize", hb, ha, err, acc, hmin, hmax, tr.note("limited") == "1", tr.note("success") == "1", int(tr.note("order")))
+    return obs
+
+
+def ob_ctrl(enc, inst, tr):
+    if tr.note("exception"):
+        return [Ob("no exception", [Constraint(1, P.const(1), "exception: " + tr.note("exception")[:80])])]
+    n = int(tr.note("nadj"))
+    acc = enc.out("acc")
+    obs = [Ob("error-controlled run took its steps and consulted the controller at every attempt",
+              [Constraint(1, P.const(0 if (n >= 2 and tr.note("nsteps_taken") == "2") else 1), "2 steps, >= 2 controller calls")])]
+    nacc = 0
+    tprev = enc.out("t0")
+    for i in range(n):
+        hb, ha = enc.out("adj_hb%d" % i), enc.out("adj_ha%d" % i)
+        err = _finite_out(enc, tr, "adj_err%d" % i)
+        ok = tr.note("adj_ok%d" % i) == "1"
+        obs += controller_clauses(enc, "call %d" % i, hb, ha, err, acc, None, None, tr.note("adj_lim%d" % i) == "1", ok, int(tr.note("adj_order%d" % i)))
+        if ok and nacc < 2:
+            # the accepted attempt advanced time by the step size that was current at the attempt
+            t1 = enc.out("t_step%d" % nacc)
+            obs.append(eq(enc, "accepted step %d advances time by the current step size" % nacc, P.sub(t1, tprev), hb))
+            tprev = t1
+            nacc += 1
     return obs
